@@ -472,12 +472,18 @@ pub fn compile_withdrawals(
     tx: &tir::Tx,
     network: Network,
 ) -> Result<Option<BTreeMap<primitives::RewardAccount, primitives::Coin>>, Error> {
-    let withdrawals: BTreeMap<_, _> = tx
-        .adhoc
-        .iter()
-        .filter(|x| x.name.as_str() == "withdrawal")
-        .map(|adhoc| compile_withdrawal_directive(adhoc, network))
-        .collect::<Result<_, _>>()?;
+    let mut withdrawals = BTreeMap::new();
+
+    for adhoc in tx.adhoc.iter().filter(|x| x.name.as_str() == "withdrawal") {
+        let (account, amount) = compile_withdrawal_directive(adhoc, network)?;
+
+        // the ledger holds one amount per reward account, a second block would silently replace the first
+        if withdrawals.insert(account, amount).is_some() {
+            return Err(Error::ConsistencyError(
+                "two withdrawals from the same reward account".to_string(),
+            ));
+        }
+    }
 
     if withdrawals.is_empty() {
         Ok(None)
